@@ -158,17 +158,23 @@ Section Strip.
   Lemma NoSys_fc st st' : ents_fc_eq st st' -> NoSys st -> NoSys st'.
   Proof. intros H. apply NoSys_shrink. apply ents_fc_eq_shrink. exact H. Qed.
 
-  Lemma sys_before_id st c : NoSys st -> before_update_one sch st c CSystem = Ok SvNone.
+  (* the target of an indexing context does not carry the flag *)
+  Definition Loc (st : state) (c : ictx) : Prop :=
+    get_field sch st (ic_store c) (ic_id c) isSystemF <> FBool true.
+
+  Lemma Loc_fc st st' c : ents_fc_eq st st' -> Loc st c -> Loc st' c.
+  Proof. intros H Hl. unfold Loc. rewrite (get_field_fc sch st st'); [exact Hl | apply H]. Qed.
+
+  Lemma sys_before_id st c : Loc st c -> before_update_one sch st c CSystem = Ok SvNone.
   Proof.
-    intros Hn. cbn [before_update_one]. destruct (negb (ic_create c)); [|reflexivity].
-    pose proof (get_field_nosys st (ic_store c) (ic_id c) Hn) as Hg. unfold isSystemF in Hg.
+    intros Hg. cbn [before_update_one]. destruct (negb (ic_create c)); [|reflexivity].
+    unfold Loc, isSystemF in Hg.
     destruct (get_field sch st (ic_store c) (ic_id c) _) as [| |y|[|]]; try reflexivity. congruence.
   Qed.
 
-  Lemma sys_after_id st c sv : NoSys st -> after_update_one sch st c CSystem sv = Ok st.
+  Lemma sys_after_id st c sv : Loc st c -> after_update_one sch st c CSystem sv = Ok st.
   Proof.
-    intros Hn. cbn [after_update_one]. destruct (ic_create c); [|reflexivity].
-    pose proof (get_field_nosys st (ic_store c) (ic_id c) Hn) as Hg.
+    intros Hg. cbn [after_update_one]. destruct (ic_create c); [|reflexivity]. unfold Loc in Hg.
     destruct (get_field sch st (ic_store c) (ic_id c) isSystemF) as [| |y|[|]]; try reflexivity. congruence.
   Qed.
 
@@ -182,7 +188,7 @@ Section Strip.
   Lemma strip_sv_nil ks : strip_sv ks [] = [].
   Proof. destruct ks; reflexivity. Qed.
 
-  Lemma before_all_strip st c : NoSys st -> forall ks,
+  Lemma before_all_strip st c : Loc st c -> forall ks,
     before_update_all sch' st c (strip_cons ks) =
     match before_update_all sch st c ks with Ok svs => Ok (strip_sv ks svs) | Err e => Err e end.
   Proof.
@@ -197,7 +203,7 @@ Section Strip.
       cbn [strip_sv]. assert (is_sys k = false) as -> by (destruct k; try reflexivity; congruence). reflexivity.
   Qed.
 
-  Lemma after_all_strip c : forall ks svs st, NoSys st ->
+  Lemma after_all_strip c : forall ks svs st, Loc st c ->
     after_update_all sch' st c (strip_cons ks) (strip_sv ks svs) = after_update_all sch st c ks svs.
   Proof.
     induction ks as [|k ks IH]; intros svs st Hn; [reflexivity|].
@@ -210,10 +216,10 @@ Section Strip.
       assert (is_sys k = false) as Hk' by (destruct k; try reflexivity; congruence).
       destruct svs as [|x xr]; cbn [strip_sv]; rewrite ?Hk'; rewrite after_update_one_strip.
       + destruct (after_update_one sch st c k SvNone) as [st1|e] eqn:E1; cbn [bind]; [|reflexivity].
-        assert (NoSys st1) as Hn1 by (eapply NoSys_fc; [eapply after_update_one_frame; exact E1 | exact Hn]).
+        assert (Loc st1 c) as Hn1 by (eapply Loc_fc; [eapply after_update_one_frame; exact E1 | exact Hn]).
         pose proof (IH [] st1 Hn1) as IH0. rewrite strip_sv_nil in IH0. exact IH0.
       + destruct (after_update_one sch st c k x) as [st1|e] eqn:E1; cbn [bind]; [|reflexivity].
-        apply IH. eapply NoSys_fc; [eapply after_update_one_frame; exact E1 | exact Hn].
+        apply IH. eapply Loc_fc; [eapply after_update_one_frame; exact E1 | exact Hn].
   Qed.
 
   Definition strip_chain (ch : list (name * list cons)) : list (name * list cons) :=
@@ -228,31 +234,49 @@ Section Strip.
   Lemma strip_svss_nil ch : strip_svss ch [] = [].
   Proof. destruct ch as [|[a b] ch]; reflexivity. Qed.
 
-  Lemma before_chain_strip st create sys i : NoSys st -> forall ch,
+  (* entity i does not carry the flag, seen from every store of the indexing chain *)
+  Definition ChainLoc (st : state) (i : id) (ch : list (name * list cons)) : Prop :=
+    forall s0 ks, In (s0, ks) ch -> get_field sch st s0 i isSystemF <> FBool true.
+
+  Lemma ChainLoc_fc st st' i ch : ents_fc_eq st st' -> ChainLoc st i ch -> ChainLoc st' i ch.
+  Proof.
+    intros H Hc s0 ks Hin. rewrite (get_field_fc sch st st'); [exact (Hc s0 ks Hin) | apply H].
+  Qed.
+
+  Lemma ChainLoc_tl st i p ch : ChainLoc st i (p :: ch) -> ChainLoc st i ch.
+  Proof. intros H s0 ks Hin. apply (H s0 ks). right. exact Hin. Qed.
+
+  Lemma before_chain_strip st create sys i : forall ch, ChainLoc st i ch ->
     before_chain sch' st create sys i (strip_chain ch) =
     match before_chain sch st create sys i ch with Ok svss => Ok (strip_svss ch svss) | Err e => Err e end.
   Proof.
-    intros Hn. induction ch as [|[s0 ks] ch IH]; [reflexivity|].
+    induction ch as [|[s0 ks] ch IH]; intros Hn; [reflexivity|].
     cbn [strip_chain map fst snd before_chain]. fold (strip_chain ch).
-    rewrite (before_all_strip st _ Hn ks), IH.
+    assert (Loc st (mkIctx create sys s0 i)) as Hl by (exact (Hn s0 ks (or_introl eq_refl))).
+    rewrite (before_all_strip st _ Hl ks), (IH (ChainLoc_tl _ _ _ _ Hn)).
     destruct (before_update_all sch st _ ks) as [svs|e]; cbn [bind]; [|reflexivity].
     destruct (before_chain sch st create sys i ch) as [svss|e]; cbn [bind]; reflexivity.
   Qed.
 
-  Lemma after_chain_strip create sys i : forall ch svss st, NoSys st ->
+  Lemma after_chain_strip create sys i : forall ch svss st, ChainLoc st i ch ->
     after_chain sch' st create sys i (strip_chain ch) (strip_svss ch svss) = after_chain sch st create sys i ch svss.
   Proof.
     induction ch as [|[s0 ks] ch IH]; intros svss st Hn; [reflexivity|].
     cbn [strip_chain map fst snd after_chain]. fold (strip_chain ch).
+    assert (Loc st (mkIctx create sys s0 i)) as Hl by (exact (Hn s0 ks (or_introl eq_refl))).
+    pose proof (ChainLoc_tl _ _ _ _ Hn) as Hn'.
     destruct svss as [|x xr]; cbn [strip_svss].
-    - pose proof (after_all_strip (mkIctx create sys s0 i) ks [] st Hn) as HA. rewrite strip_sv_nil in HA. rewrite HA.
+    - pose proof (after_all_strip (mkIctx create sys s0 i) ks [] st Hl) as HA. rewrite strip_sv_nil in HA. rewrite HA.
       destruct (after_update_all sch st _ ks []) as [st1|e] eqn:E1; cbn [bind]; [|reflexivity].
-      assert (NoSys st1) as Hn1 by (eapply NoSys_fc; [eapply after_all_fc; exact E1 | exact Hn]).
+      assert (ChainLoc st1 i ch) as Hn1 by (eapply ChainLoc_fc; [eapply after_all_fc; exact E1 | exact Hn']).
       pose proof (IH [] st1 Hn1) as IH0. rewrite strip_svss_nil in IH0. exact IH0.
-    - rewrite (after_all_strip _ ks x st Hn).
+    - rewrite (after_all_strip _ ks x st Hl).
       destruct (after_update_all sch st _ ks x) as [st1|e] eqn:E1; cbn [bind]; [|reflexivity].
-      apply IH. eapply NoSys_fc; [eapply after_all_fc; exact E1 | exact Hn].
+      apply IH. eapply ChainLoc_fc; [eapply after_all_fc; exact E1 | exact Hn'].
   Qed.
+
+  Lemma NoSys_ChainLoc st i ch : NoSys st -> ChainLoc st i ch.
+  Proof. intros Hn s0 ks _. apply get_field_nosys. exact Hn. Qed.
 
   (* ---------------------------------------------------------------- persisting never sets the flag by itself *)
   Lemma persist_fields_nobool decl fv ch g : forall cur,
@@ -284,11 +308,12 @@ Section Strip.
     - eapply Hn; eauto.
   Qed.
 
-  (* ---------------------------------------------------------------- create / update *)
-  Lemma op_create_strip oc st evs x i fv sv : NoSys st ->
+  (* ---------------------------------------------------------------- create / update, given the chain condition *)
+  Lemma op_create_strip_core oc st evs x i fv sv :
+    ChainLoc (set_ent st (root_of sch x) i (persist sch x true false fv sv None ent_empty)) i (chain sch x) ->
     op_create sch' oc (st, evs) x i false fv sv = op_create sch oc (st, evs) x i false fv sv.
   Proof.
-    intros Hn. unfold op_create. rewrite find_store_strip. destruct (find_store sch x) as [d|]; [|reflexivity]. cbn [option_map].
+    intros Hn1. unfold op_create. rewrite find_store_strip. destruct (find_store sch x) as [d|]; [|reflexivity]. cbn [option_map].
     destruct (negb (nonempty i)); [reflexivity|].
     rewrite !present_strip, root_of_strip. destruct (present sch st x i); [reflexivity|].
     destruct (present sch st (root_of sch x) i); [reflexivity|].
@@ -296,23 +321,39 @@ Section Strip.
     rewrite fire_cu_strip, persist_strip, chain_strip.
     destruct (fire_cu sch oc evs x Created i) as [evs1|e]; cbn [bind]; [|reflexivity].
     fold (strip_chain (chain sch x)).
-    assert (NoSys (set_ent st (root_of sch x) i (persist sch x true false fv sv None ent_empty))) as Hn1
-      by (apply NoSys_set_ent; [exact Hn|]; apply persist_nosys; [reflexivity | cbn; discriminate]).
     pose proof (after_chain_strip true (oc_sys oc) i (chain sch x) [] _ Hn1) as HA. rewrite strip_svss_nil in HA.
     rewrite HA. reflexivity.
+  Qed.
+
+  Lemma update_in_strip_core oc st evs x i fv sv ch :
+    ChainLoc st i (chain sch x) ->
+    ChainLoc (set_ent st (root_of sch x) i
+                (persist sch x false false fv sv ch (match get_ent st (root_of sch x) i with Some e => e | None => ent_empty end)))
+             i (chain sch x) ->
+    update_in sch' oc (st, evs) x i fv sv ch = update_in sch oc (st, evs) x i fv sv ch.
+  Proof.
+    intros Hn Hn1. unfold update_in. destruct (negb (nonempty i)); [reflexivity|].
+    rewrite loadable_strip, present_strip, root_of_strip. destruct (negb (loadable sch st x i)); [reflexivity|].
+    destruct (negb (present sch st x i)); [reflexivity|].
+    rewrite fire_cu_strip, persist_strip, chain_strip.
+    destruct (fire_cu sch oc evs x Updated i) as [evs1|e]; cbn [bind]; [|reflexivity].
+    fold (strip_chain (chain sch x)). rewrite (before_chain_strip st false (oc_sys oc) i _ Hn).
+    destruct (before_chain sch st false (oc_sys oc) i (chain sch x)) as [svss|e]; cbn [bind]; [|reflexivity].
+    rewrite (after_chain_strip false (oc_sys oc) i _ svss _ Hn1). reflexivity.
+  Qed.
+
+  (* ---- in a state without system entities *)
+  Lemma op_create_strip oc st evs x i fv sv : NoSys st ->
+    op_create sch' oc (st, evs) x i false fv sv = op_create sch oc (st, evs) x i false fv sv.
+  Proof.
+    intros Hn. apply op_create_strip_core. apply NoSys_ChainLoc.
+    apply NoSys_set_ent; [exact Hn|]. apply persist_nosys; [reflexivity | cbn; discriminate].
   Qed.
 
   Lemma update_in_strip oc st evs x i fv sv ch : NoSys st ->
     update_in sch' oc (st, evs) x i fv sv ch = update_in sch oc (st, evs) x i fv sv ch.
   Proof.
-    intros Hn. unfold update_in. destruct (negb (nonempty i)); [reflexivity|].
-    rewrite loadable_strip, present_strip, root_of_strip. destruct (negb (loadable sch st x i)); [reflexivity|].
-    destruct (negb (present sch st x i)); [reflexivity|].
-    rewrite fire_cu_strip, persist_strip, chain_strip.
-    destruct (fire_cu sch oc evs x Updated i) as [evs1|e]; cbn [bind]; [|reflexivity].
-    fold (strip_chain (chain sch x)). rewrite (before_chain_strip st false (oc_sys oc) i Hn).
-    destruct (before_chain sch st false (oc_sys oc) i (chain sch x)) as [svss|e]; cbn [bind]; [|reflexivity].
-    rewrite after_chain_strip; [reflexivity|].
+    intros Hn. apply update_in_strip_core; apply NoSys_ChainLoc; [exact Hn|].
     apply NoSys_set_ent; [exact Hn|]. apply persist_nosys; [reflexivity|].
     destruct (get_ent st (root_of sch x) i) as [e0|] eqn:E0; [eapply Hn; eauto | cbn; discriminate].
   Qed.
@@ -325,6 +366,60 @@ Section Strip.
     rewrite children_of_strip. cbn [fst].
     rewrite (find_map_strip (fun d0 => present sch st (sd_name d0) i)); [|intros d0; apply present_strip].
     destruct (find _ (children_of sch x)) as [d0|]; cbn [option_map]; apply update_in_strip; exact Hn.
+  Qed.
+
+  (* ---- in ANY state (system entities may exist): the target itself does not carry the flag *)
+  Hypothesis Hroots : forall y, root_of sch (root_of sch y) = root_of sch y.
+  Hypothesis Hchildren : forall r0 d, In d (children_of sch r0) -> root_of sch (sd_name d) = r0.
+
+  Definition NoFlag (st : state) (r : name) (i : id) : Prop :=
+    forall e, get_ent st r i = Some e -> ent_field e isSystemF <> FBool true.
+
+  Lemma NoFlag_ChainLoc st x i : NoFlag st (root_of sch x) i -> ChainLoc st i (chain sch x).
+  Proof.
+    intros Hn s0 ks Hin.
+    assert (root_of sch s0 = root_of sch x) as Hr.
+    { unfold chain in Hin. destruct (is_child sch x); cbn in Hin.
+      - destruct Hin as [H|[H|[]]]; inversion H; subst; [apply Hroots | reflexivity].
+      - destruct Hin as [H|[]]. inversion H; subst. reflexivity. }
+    unfold get_field. rewrite Hr. destruct (get_ent st (root_of sch x) i) as [e|] eqn:Ee; [|discriminate].
+    destruct (find_store sch s0) as [d|] eqn:Ed.
+    - rewrite (Hnofield _ _ Ed), andb_false_r. exact (Hn e Ee).
+    - exact (Hn e Ee).
+  Qed.
+
+  Lemma NoFlag_set_ent st r i e : ent_field e isSystemF <> FBool true -> NoFlag (set_ent st r i e) r i.
+  Proof. intros He e0 H. rewrite get_ent_set_ent, !str_eqb_refl in H. inversion H; subst. exact He. Qed.
+
+  (* a create without the flag is unaffected by the constraint in EVERY state *)
+  Lemma op_create_strip_any oc st evs x i fv sv :
+    op_create sch' oc (st, evs) x i false fv sv = op_create sch oc (st, evs) x i false fv sv.
+  Proof.
+    apply op_create_strip_core. apply NoFlag_ChainLoc. apply NoFlag_set_ent.
+    apply persist_nosys; [reflexivity | cbn; discriminate].
+  Qed.
+
+  Lemma update_in_strip_any oc st evs x i fv sv ch : NoFlag st (root_of sch x) i ->
+    update_in sch' oc (st, evs) x i fv sv ch = update_in sch oc (st, evs) x i fv sv ch.
+  Proof.
+    intros Hn. apply update_in_strip_core; apply NoFlag_ChainLoc; [exact Hn|].
+    apply NoFlag_set_ent. apply persist_nosys; [reflexivity|].
+    destruct (get_ent st (root_of sch x) i) as [e0|] eqn:E0; [exact (Hn e0 E0) | cbn; discriminate].
+  Qed.
+
+  (* an update of an entity whose stored flag is not set is unaffected by the constraint in EVERY state *)
+  Lemma op_update_strip_any oc st evs x i fv sv ch : NoFlag st (root_of sch x) i ->
+    op_update sch' oc (st, evs) x i fv sv ch = op_update sch oc (st, evs) x i fv sv ch.
+  Proof.
+    intros Hn. unfold op_update. rewrite find_store_strip. destruct (find_store sch x) as [d|]; [|reflexivity]. cbn [option_map].
+    rewrite is_child_strip. destruct (is_child sch x) eqn:Ec; [apply update_in_strip_any; exact Hn|].
+    rewrite children_of_strip. cbn [fst].
+    rewrite (find_map_strip (fun d0 => present sch st (sd_name d0) i)); [|intros d0; apply present_strip].
+    destruct (find _ (children_of sch x)) as [d0|] eqn:Ef; cbn [option_map]; apply update_in_strip_any; [|exact Hn].
+    apply find_some in Ef as [Hin _]. rewrite (Hchildren _ _ Hin).
+    assert (root_of sch x = x) as <-; [|exact Hn].
+    unfold is_child in Ec. unfold root_of. destruct (find_store sch x) as [dx|]; [|reflexivity].
+    destruct (sd_parent dx); [discriminate | reflexivity].
   Qed.
 
   (* ---------------------------------------------------------------- delete *)
@@ -548,4 +643,59 @@ Lemma ordinary_histories_unaffected_lemma sch fuel txs :
   run_txs (strip sch) fuel st_empty txs = run_txs sch fuel st_empty txs.
 Proof.
   intros Hwf Hall. exact (run_txs_strip sch (wf_nofield_b_sound sch Hwf) fuel txs st_empty NoSys_empty Hall).
+Qed.
+
+(* ---- mixed states: system entities may exist elsewhere *)
+Definition wf_strip_b (sch : schema) : bool :=
+  wf_nofield_b sch && wf_parents sch && nodupb (map sd_name sch).
+
+Lemma wf_parents_roots sch : wf_parents sch = true -> forall x, root_of sch (root_of sch x) = root_of sch x.
+Proof.
+  intros H3.
+  assert (Hnc : forall p, is_child sch p = false -> root_of sch p = p).
+  { intros p Hp. unfold is_child in Hp. unfold root_of. destruct (find_store sch p) as [dp|]; [|reflexivity].
+    destruct (sd_parent dp); [discriminate | reflexivity]. }
+  intros x. destruct (find_store sch x) as [d|] eqn:Ef.
+  - destruct (sd_parent d) as [p|] eqn:Ep.
+    + assert (root_of sch x = p) as Hx by (unfold root_of; rewrite Ef, Ep; reflexivity).
+      rewrite Hx. apply Hnc. destruct (find_store_in _ _ _ Ef) as [Hin _].
+      unfold wf_parents in H3. rewrite forallb_forall in H3. specialize (H3 d Hin). rewrite Ep in H3.
+      apply negb_true_iff in H3. exact H3.
+    + assert (root_of sch x = x) as Hx by (unfold root_of; rewrite Ef, Ep; reflexivity).
+      rewrite Hx. exact Hx.
+  - assert (root_of sch x = x) as Hx by (unfold root_of; rewrite Ef; reflexivity).
+    rewrite Hx. exact Hx.
+Qed.
+
+Lemma nodup_children_root sch : nodupb (map sd_name sch) = true ->
+  forall r0 d, In d (children_of sch r0) -> root_of sch (sd_name d) = r0.
+Proof.
+  intros H2 r0 d Hin. unfold children_of in Hin. apply filter_In in Hin as [Hin Hp].
+  destruct (sd_parent d) as [p|] eqn:Ep; [|discriminate]. apply str_eqb_eq in Hp. subst p.
+  unfold root_of. rewrite (find_store_nodup _ _ H2 Hin), Ep. reflexivity.
+Qed.
+
+Lemma wf_strip_b_sound sch : wf_strip_b sch = true ->
+  (forall x d, find_store sch x = Some d -> declares_field d isSystemF = false) /\
+  (forall y, root_of sch (root_of sch y) = root_of sch y) /\
+  (forall r0 d, In d (children_of sch r0) -> root_of sch (sd_name d) = r0).
+Proof.
+  unfold wf_strip_b. intros H. apply andb_prop in H as [H H3]. apply andb_prop in H as [H1 H2].
+  split; [exact (wf_nofield_b_sound sch H1)|]. split; [exact (wf_parents_roots sch H2) | exact (nodup_children_root sch H3)].
+Qed.
+
+Lemma ordinary_create_unaffected_any_lemma sch oc st evs x i fv sv :
+  wf_strip_b sch = true ->
+  op_create (strip sch) oc (st, evs) x i false fv sv = op_create sch oc (st, evs) x i false fv sv.
+Proof.
+  intros Hwf. destruct (wf_strip_b_sound sch Hwf) as [H1 [H2 H3]].
+  exact (op_create_strip_any sch H1 H2 oc st evs x i fv sv).
+Qed.
+
+Lemma ordinary_update_unaffected_any_lemma sch oc st evs x i fv sv ch :
+  wf_strip_b sch = true -> NoFlag st (root_of sch x) i ->
+  op_update (strip sch) oc (st, evs) x i fv sv ch = op_update sch oc (st, evs) x i fv sv ch.
+Proof.
+  intros Hwf. destruct (wf_strip_b_sound sch Hwf) as [H1 [H2 H3]].
+  exact (op_update_strip_any sch H1 H2 H3 oc st evs x i fv sv ch).
 Qed.
